@@ -7,18 +7,18 @@ Import ListNotations.
 (* The literal property is FALSE for the protocol of actor/grain_engine.go: there is an execution of three
    nodes with exactly one injected activation failure after which two nodes hold a live instance. *)
 Theorem C30_refuted :
-  exists ls s, run state0 ls = Some s /\ count_fail ls = 1 /\ ~ at_most_one_active s.
+  exists ls s, run false state0 ls = Some s /\ count_fail ls = 1 /\ ~ at_most_one_active s.
 Proof. exact refuted_at_most_one. Qed.
 
 (* ... and an execution with NO failure after which everything is quiescent, a node holds a live instance
    and the registry does not name it (grainPID.deactivate's late RemoveGrain) ... *)
 Theorem C30_registry_refuted :
-  exists ls s, run state0 ls = Some s /\ count_fail ls = 0 /\ quiescent s /\ ~ registry_names_holder s.
+  exists ls s, run false state0 ls = Some s /\ count_fail ls = 0 /\ quiescent s /\ ~ registry_names_holder s.
 Proof. exact refuted_registry_names_holder. Qed.
 
 (* ... which continues to two live instances, still without any failure. *)
 Theorem C30_refuted_no_failure :
-  exists ls s, run state0 ls = Some s /\ count_fail ls = 0 /\ ~ at_most_one_active s.
+  exists ls s, run false state0 ls = Some s /\ count_fail ls = 0 /\ ~ at_most_one_active s.
 Proof. exact refuted_at_most_one_no_failure. Qed.
 
 (* What does hold (any number of nodes, any interleaving of sends, deactivations and injected failures, any
@@ -27,21 +27,30 @@ Proof. exact refuted_at_most_one_no_failure. Qed.
    deactivation [overlap] -- guard = negb claimless && negb overlap, checked at every step by run_g -- has at
    most one live instance, on one node, and the registry names that node at every moment (not only at quiescence). *)
 Theorem C30_partial : forall ls s,
-  run_g state0 ls = Some s -> at_most_one_active s /\ registry_names_holder s.
-Proof. exact partial_safe. Qed.
+  run_g false state0 ls = Some s -> at_most_one_active s /\ registry_names_holder s.
+Proof. exact (partial_safe false). Qed.
+
+(* The protocol with the proposed repair of tryClaimGrain (fixes/C30-claim-retry.diff: when the owner record has
+   vanished after a lost claim, claim again): the same holds with clause (b) as the only guard. *)
+Theorem C30_partial_repaired : forall ls s,
+  run_g true state0 ls = Some s -> at_most_one_active s /\ registry_names_holder s.
+Proof. exact (partial_safe true). Qed.
+
+Theorem C30_repaired_guard_is_overlap_only : forall s l, guard true s l = negb (overlap s l).
+Proof. exact guard_repaired. Qed.
 
 Theorem C30_partial_at_most_one : forall ls s n m p q,
-  run_g state0 ls = Some s -> is_live s n p -> is_live s m q -> n = m /\ p = q.
-Proof. intros ls s n m p q R. destruct (partial_safe ls s R) as (A & _). apply A. Qed.
+  run_g false state0 ls = Some s -> is_live s n p -> is_live s m q -> n = m /\ p = q.
+Proof. intros ls s n m p q R. destruct (partial_safe false ls s R) as (A & _). apply A. Qed.
 
 Theorem C30_partial_registry_names_holder : forall ls s n p,
-  run_g state0 ls = Some s -> is_live s n p -> r_get gk (sreg s) = Some n.
-Proof. intros ls s n p R. destruct (partial_safe ls s R) as (_ & B). apply B. Qed.
+  run_g false state0 ls = Some s -> is_live s n p -> r_get gk (sreg s) = Some n.
+Proof. intros ls s n p R. destruct (partial_safe false ls s R) as (_ & B). apply B. Qed.
 
 (* the guard is met by non-trivial executions (activation, owner mismatch, deactivation, failed activation with
    claim rollback, failed publication with failing rollback, re-activation elsewhere) *)
 Example C30_partial_nonvacuous :
-  exists s, run_g state0 guarded_example = Some s /\ is_live s 2 1 /\ r_get gk (sreg s) = Some 2.
+  exists s, run_g false state0 guarded_example = Some s /\ is_live s 2 1 /\ r_get gk (sreg s) = Some 2.
 Proof. exact partial_nonvacuous. Qed.
 
 (* M-REGISTRY: of two NX puts on one key exactly one can win. *)
@@ -54,6 +63,8 @@ Print Assumptions C30_registry_refuted.
 Print Assumptions C30_refuted_no_failure.
 Print Assumptions C30_registry_nx_exclusive.
 Print Assumptions C30_partial.
+Print Assumptions C30_partial_repaired.
+Print Assumptions C30_repaired_guard_is_overlap_only.
 Print Assumptions C30_partial_at_most_one.
 Print Assumptions C30_partial_registry_names_holder.
 Print Assumptions C30_partial_nonvacuous.
